@@ -20,15 +20,17 @@ KINDS = ('pass', 'panic', 'eager_panic')
 
 
 class Shape:
-    def __init__(self, fbg=1, rbg=0, steps=2, before=True, after=True, rule=False, retries=None, delay=False):
+    def __init__(self, fbg=1, rbg=0, steps=2, before=True, after=True, rule=False, retries=None, delay=False, ty='Concurrent'):
         self.fbg, self.rbg, self.steps, self.before, self.after, self.rule, self.retries = fbg, rbg, steps, before, after, rule or rbg > 0, retries
         self.delay = delay          # the retry options carry a delay (`after`)
+        self.ty = ty                # the type the attempt was dispatched as (Serial / Concurrent)
 
     def step_names(self):
         return ['fb%d' % i for i in range(self.fbg)] + ['rb%d' % i for i in range(self.rbg)] + ['s%d' % i for i in range(self.steps)]
 
     def __repr__(self):
-        return 'fbg=%d rbg=%d steps=%d before=%s after=%s retries=%s' % (self.fbg, self.rbg, self.steps, self.before, self.after, self.retries)
+        return 'fbg=%d rbg=%d steps=%d before=%s after=%s retries=%s%s%s' % (self.fbg, self.rbg, self.steps, self.before, self.after, self.retries,
+                                                                         ' delay' if self.delay else '', ' serial' if self.ty == 'Serial' else '')
 
 
 def simulate(chk, shape, pend=0, max_polls=60, pair=False):
@@ -214,7 +216,7 @@ def simulate(chk, shape, pend=0, max_polls=60, pair=False):
         args[rp['rule']] = Adt('Option<event::Source<gherkin::Rule>>', {(1, 0): rsrc}, 1 if shape.rule else 0)
         args[rp['scenario']] = ssrc
         if 'scenario_ty' in rp:
-            args[rp['scenario_ty']] = Adt('runner::basic::ScenarioType', {}, six.Ty['Concurrent'])
+            args[rp['scenario_ty']] = Adt('runner::basic::ScenarioType', {}, six.Ty[shape.ty])
         args[rp['retries']] = ret
         co = ex_.call_body(run_sc, args)
         cocell = Cell(co, name='run_scenario')
@@ -278,7 +280,22 @@ def simulate(chk, shape, pend=0, max_polls=60, pair=False):
                             deadline_err = 'the retry delay is counted from an instant BEFORE the after hook of the failed attempt ended (the attempt was still running)'
             except (Inconclusive, AttributeError, KeyError) as e_:
                 deadline_err = None
-        return {'log': list(ex_.env.get('log', [])), 'polls': polls, 'escaped': escaped, 'deadline_err': deadline_err, 'hook_end': ex_.env.get('panic_hook')}
+        # a retried attempt goes back into the storage under the type it was dispatched as (that is all that keeps a retried
+        # @serial scenario isolated)
+        requeue_err = None
+        if shape.retries is not None and escaped is None and 'scenario_ty' in rp:
+            try:
+                mval = ex_.materialize(ex_.read_path(fv.fields[(None, six.F['scenarios'])].cell, ())).fields[(None, 0)]
+                inv_ty = {v_: k_ for k_, v_ in six.Ty.items()}
+                for key_, vec in mval.entries:
+                    kd = z3.simplify(M.discr(ex_, ex_.materialize(key_)))
+                    n_ent = len(M.seq_of(ex_, vec))
+                    if n_ent and z3.is_bv_value(kd) and inv_ty.get(kd.as_long()) != shape.ty:
+                        requeue_err = 'the next attempt of a scenario dispatched as %s was put back into the %s storage' % (shape.ty, inv_ty.get(kd.as_long()))
+            except (Inconclusive, AttributeError, KeyError):
+                requeue_err = None
+        return {'log': list(ex_.env.get('log', [])), 'polls': polls, 'escaped': escaped, 'deadline_err': deadline_err, 'requeue_err': requeue_err,
+                'hook_end': ex_.env.get('panic_hook')}
     out = []
 
     def on_end(ex_, rec):
@@ -569,4 +586,6 @@ def oracles(shape, res, ix):
     out['failed-events-say-retried-iff-the-attempt-is-retried'] = '; '.join(bad) if bad else None
     if getattr(shape, 'delay', False):
         out['retry-delay-counted-from-the-end-of-the-attempt'] = res.get('deadline_err')
+    if shape.retries is not None:
+        out['next-attempt-queued-under-the-type-it-was-dispatched-as'] = res.get('requeue_err')
     return out
